@@ -298,6 +298,8 @@ def _run(ctx):
         raise AnalysisError('C02.R3: spec method stores not found (%d)'
                             % n_in)
     r3.ok('outside mistral/lang :: spec attribute stores', 'none')
+    from mstatic.rules import shared as _shf
+    _shf.handed_out_values_fresh(ctx, r3)
     from mstatic.rules import c05 as _c05
     _c05.shared_publish_specs(ctx, r3)
 
